@@ -5,6 +5,8 @@ package main
 
 import (
 	"fmt"
+	"go/token"
+	"go/types"
 	"strings"
 
 	"golang.org/x/tools/go/ssa"
@@ -40,6 +42,77 @@ func isJoin(w *Worker, s *State, f *Frame) bool {
 	return ok && strings.HasSuffix(n, "/zzverif/verifrt.Join")
 }
 
+// isSettle: rt.Settle() waits until every other thread is blocked or finished.
+func isSettle(w *Worker, s *State, f *Frame) bool {
+	n, _, ok := w.pendingCall(s, f)
+	return ok && strings.HasSuffix(n, "/zzverif/verifrt.Settle")
+}
+
+func (w *Worker) othersRunnable(s *State) bool {
+	for i, t := range s.threads {
+		if i == s.cur || len(t.frames) == 0 {
+			continue
+		}
+		_, vis, en := w.visibleSig(s, t.frames[len(t.frames)-1])
+		if !vis || en {
+			return true
+		}
+	}
+	return false
+}
+
+// selectReady: some case of a blocking select can proceed.
+func selectReady(w *Worker, s *State, f *Frame, x *ssa.Select) bool {
+	for _, st := range x.States {
+		ch, ok := w.get(s, f, st.Chan).(ChanRef)
+		if !ok || ch.id == 0 {
+			continue
+		}
+		co := s.cell(ch.id).(*ChanObj)
+		if st.Dir == types.SendOnly {
+			if len(co.buf) < co.cap || chanSendReady(w, s, ch.id) {
+				return true
+			}
+		} else if len(co.buf) > 0 || co.closed {
+			return true
+		}
+	}
+	return false
+}
+
+// chanSendReady: an unbuffered (or full) channel accepts a send when another thread is parked at a
+// receive or select on it and nothing is in flight (the value is handed over through the buffer).
+func chanSendReady(w *Worker, s *State, id int) bool {
+	co := s.cell(id).(*ChanObj)
+	if len(co.buf) > co.cap || (co.cap > 0 && len(co.buf) >= co.cap) || len(co.buf) > 0 {
+		return false
+	}
+	for i, t := range s.threads {
+		if i == s.cur || len(t.frames) == 0 {
+			continue
+		}
+		f := t.frames[len(t.frames)-1]
+		if f.ip >= len(f.block.Instrs) {
+			continue
+		}
+		switch x := f.block.Instrs[f.ip].(type) {
+		case *ssa.Select:
+			for _, st := range x.States {
+				if ch, ok := w.get(s, f, st.Chan).(ChanRef); ok && ch.id == id && st.Dir != types.SendOnly {
+					return true
+				}
+			}
+		case *ssa.UnOp:
+			if x.Op == token.ARROW {
+				if ch, ok := w.get(s, f, x.X).(ChanRef); ok && ch.id == id {
+					return true
+				}
+			}
+		}
+	}
+	return false
+}
+
 func (s *State) othersDone() bool {
 	for i, t := range s.threads {
 		if i == s.cur {
@@ -54,6 +127,27 @@ func (s *State) othersDone() bool {
 
 // visibleSig classifies the next operation of a thread. enabled=false means the thread is blocked.
 func (w *Worker) visibleSig(s *State, f *Frame) (sig OpSig, visible bool, enabled bool) {
+	if f.ip < len(f.block.Instrs) {
+		// blocking channel operations park the thread until they can proceed
+		switch x := f.block.Instrs[f.ip].(type) {
+		case *ssa.Select:
+			if x.Blocking {
+				return OpSig{kind: "write", cell: "chan"}, true, selectReady(w, s, f, x)
+			}
+		case *ssa.UnOp:
+			if x.Op == token.ARROW {
+				if ch, ok := w.get(s, f, x.X).(ChanRef); ok && ch.id != 0 {
+					co := s.cell(ch.id).(*ChanObj)
+					return OpSig{kind: "write", cell: "chan"}, true, len(co.buf) > 0 || co.closed
+				}
+			}
+		case *ssa.Send:
+			if ch, ok := w.get(s, f, x.Chan).(ChanRef); ok && ch.id != 0 {
+				co := s.cell(ch.id).(*ChanObj)
+				return OpSig{kind: "write", cell: "chan"}, true, len(co.buf) < co.cap || co.closed || chanSendReady(w, s, ch.id)
+			}
+		}
+	}
 	n, args, ok := w.pendingCall(s, f)
 	if !ok {
 		return OpSig{}, false, true
@@ -127,7 +221,7 @@ func (w *Worker) schedule(s *State) bool {
 			continue
 		}
 		f := th.frames[len(th.frames)-1]
-		if t == 0 && isJoinFrames(w, s, th.frames) {
+		if t == 0 && (isJoinFrames(w, s, th.frames) || isSettle(w, s, f)) {
 			continue
 		}
 		sig, vis, en := w.visibleSigOf(s, t, f)
@@ -147,6 +241,12 @@ func (w *Worker) schedule(s *State) bool {
 		cands = append(cands, cand{t, sig})
 	}
 	if len(cands) == 0 {
+		if th0 := s.threads[0]; len(th0.frames) > 0 && isSettle(w, s, th0.frames[len(th0.frames)-1]) {
+			// everybody else is blocked or done: the settling main thread goes on
+			s.switchTo(0)
+			s.grant = false
+			return true
+		}
 		if yielded > 0 && blocked == 0 {
 			// every runnable thread is spinning on Gosched: nobody can make the awaited progress
 			bail("NONTERMINATION all threads spin on runtime.Gosched")
